@@ -4,7 +4,10 @@ MODS = ['contracts.c_externs', 'contracts.c_include']
 FUNCS = ['yalafi.shell.shell.<include_loop>']
 # first half of the property: the extraction list (token-model contracts)
 MORE = [(['yalafi.parser.Parser.init_extractions',
-          'yalafi.defs.Expandable.__init__.<locals>.check'],
+          'yalafi.defs.Expandable.__init__.<locals>.check',
+          # anchor "main text dropped when extracting": the flows handed out
+          # by parse refer to the document, none to the definition text
+          'yalafi.parser.Parser.parse'],
          ['contracts.c_externs', 'contracts.c_utils', 'contracts.c_scanner',
           'contracts.c_parser', 'contracts.c_tex2txt',
           'contracts.c_handlers'])]
@@ -75,7 +78,7 @@ ASSUMPTIONS = [
 LEVEL_TEXT = ('Extraction list: Parser.init_extractions is proved (loop contracts over the abstract macro table) to hand the '
     'scanner, for a listed macro, exactly the text #k where k-1 is the least index of an A in the argument code, else the '
     'empty text; the guard Expandable.check establishes argument references in range or exits; evaluation lemmas on the real '
-    'scanner and macro table close the gap to tokens. Inclusion tracking: deductive proof, over the lifted real statements, of the work-list invariants of --include: the list of checked '
+    'scanner and macro table close the gap to tokens. Parser.parse hands out only tokens and detached flows of the document text (flows collected while parsing the definition text are dropped before the document is parsed). Inclusion tracking: deductive proof, over the lifted real statements, of the work-list invariants of --include: the list of checked '
     'files is duplicate-free (each file once), contains no file matching --skip, and at exit is closed under "includes" (every '
     'name extracted from a checked file, with .tex added where missing, is skipped or checked), for all inclusion graphs, '
     'including cycles and self-inclusion. Discovery order and termination are not proved.')
